@@ -341,8 +341,10 @@ class Clock(object):
         return self.now
 
     def sleep(self, s):
+        from . import realsleep
+        d = realsleep.duration(s)       # raises as the real time.sleep does for a negative / NaN / non-number duration
         self.sleeps += 1
-        self.now += max(float(s), 0.0)
+        self.now += d
 
 
 class FaultInterface(object):
